@@ -1,6 +1,7 @@
 (* C17 — Saved config reads back identically; CLI overrides win but are not saved.
    This file contains only statements; every proof is [exact <lemma>]. *)
-From Reservoir Require Import Base.Prelude Model.ByteSize Proofs.ByteSize Model.ConfigProp Proofs.ConfigProp.
+From Reservoir Require Import Base.Prelude Model.ByteSize Proofs.ByteSize Model.ConfigProp Proofs.ConfigProp Model.Flags Proofs.Flags.
+From Coq Require Import String.
 
 (* Every size prints in a form that parses back to the identical value
    (all byte counts, not only unit multiples). *)
@@ -96,6 +97,49 @@ Theorem C17_cfg_roundtrip_same :
 Proof. exact cfg_roundtrip_same. Qed.
 Print Assumptions C17_cfg_roundtrip_same.
 
+(* The whole configuration under the command line.  [flag_table] (Model/Flags.v) is the documented table: which
+   setting each flag addresses and how its text is read.  For EVERY configuration, every history of flags and
+   accepted API updates of any settings: each setting is read as its own history says — the last flag that
+   addresses it if there was one, else the last update, else the initial value — and saved as the last update,
+   else the initial value. *)
+Theorem C17_whole_config_history : forall vals ops c',
+  wrun (fresh vals) ops = Ok c' ->
+  eff_of c' = map (fun kv => (fst kv, ref_read (proj (fst kv) ops) (snd kv))) vals /\
+  saved_of c' = map (fun kv => (fst kv, ref_base (proj (fst kv) ops) (snd kv))) vals.
+Proof. exact whole_config_history. Qed.
+Print Assumptions C17_whole_config_history.
+
+(* Command-line values are never written into the file: what is saved is what the API updates alone produce. *)
+Theorem C17_saved_independent_of_flags : forall vals ops c1,
+  wrun (fresh vals) ops = Ok c1 ->
+  exists c2, wrun (fresh vals) (updates_only ops) = Ok c2 /\ saved_of c1 = saved_of c2.
+Proof. exact saved_independent_of_flags. Qed.
+Print Assumptions C17_saved_independent_of_flags.
+
+(* A flag wins for the running process, whatever API updates (of its own or any other setting) and flags for
+   other settings come before or after it. *)
+Theorem C17_flag_wins : forall vals ops1 name raw ops2 path v c',
+  wrun (fresh vals) (ops1 ++ WFlag name raw :: ops2) = Ok c' ->
+  flag_target name raw = Ok (path, v) ->
+  (forall n r w, In (WFlag n r) ops2 -> flag_target n r <> Ok (path, w)) ->
+  forall kv, In kv (eff_of c') -> fst kv = path -> snd kv = v.
+Proof. exact flag_wins. Qed.
+Print Assumptions C17_flag_wins.
+
+(* A flag changes the one setting it addresses and no other, and nothing that is saved. *)
+Theorem C17_flag_only_target : forall c name raw path v c',
+  wstep c (WFlag name raw) = Ok c' -> flag_target name raw = Ok (path, v) ->
+  eff_of c' = map (fun kv => if String.eqb (fst kv) path then (fst kv, v) else kv) (eff_of c) /\
+  saved_of c' = saved_of c.
+Proof. exact flag_only_target. Qed.
+Print Assumptions C17_flag_only_target.
+
+(* No flag twice in the table, no setting addressed by two flags. *)
+Theorem C17_flag_table_injective :
+  NoDup (map fst flag_table) /\ NoDup (map (fun e => fst (snd e)) flag_table).
+Proof. exact (conj flag_names_distinct flag_targets_distinct). Qed.
+Print Assumptions C17_flag_table_injective.
+
 Example ex_1536 : bs_string 1536 = [49;53;51;54;66] /\ bs_parse (bs_string 1536) = Ok 1536.
 Proof. vm_compute. split; reflexivity. Qed.
 Example ex_10G : bs_string (10 * 2^30) = [49;48;71].
@@ -118,3 +162,16 @@ Example ex_cfg :
   load (fun _ _ => Err) (fun _ => true) (persist (fun _ _ => []) c)
   = Ok [(KSize, cp_new (VZ 1536)); (KSize, cp_new (VZ (2^40)))].
 Proof. vm_compute. reflexivity. Qed.
+(* file says ssl/old.key and 10 backups; --ca-key=k, then the API sets ca_key to "n" and backups to 4, then --log-file-max-backups=+7 *)
+Example ex_flags :
+  let vals := [("proxy.ca_cert"%string, VS [99]); ("proxy.ca_key"%string, VS [111]); ("logging.max_backups"%string, VZ 10)] in
+  match wrun (fresh vals) [WFlag "ca-key" [107]; WUpdate "proxy.ca_key" (VS [110]); WUpdate "logging.max_backups" (VZ 4);
+                           WFlag "log-file-max-backups" [43;55]] with
+  | Ok c => eff_of c = [("proxy.ca_cert"%string, VS [99]); ("proxy.ca_key"%string, VS [107]); ("logging.max_backups"%string, VZ 7)] /\
+            saved_of c = [("proxy.ca_cert"%string, VS [99]); ("proxy.ca_key"%string, VS [110]); ("logging.max_backups"%string, VZ 4)]
+  | _ => False
+  end.
+Proof. vm_compute. split; reflexivity. Qed.
+Example ex_flag_text : conv FCBool [84] = Ok (VB true) /\ conv FCSize [53;48;48;77] = Ok (VZ (500 * 2^20)) /\
+                       conv FCLevel [119;97;114;110] = Ok (VZ 4) /\ conv FCInt [45;50] = Ok (VZ (-2)) /\ conv FCBool [121] = Err.
+Proof. vm_compute. repeat split; reflexivity. Qed.
